@@ -455,7 +455,7 @@ func C09(seed uint64, run int) *spec.Spec {
 	s.Clock = spec.Clock{Now: time.Date(cy, time.Month(r.Range(2, 11)), r.Range(1, 28), r.Intn(24), r.Intn(60), r.Intn(60), 0, time.UTC).Format(time.RFC3339Nano),
 		ZoneS: r.Range(-12, 14) * 3600, TickNs: 1000000}
 
-	big := Tier == "thorough" && r.Chance(0.25)
+	big := (Tier == "thorough" && r.Chance(0.25)) || (Tier != "thorough" && r.Chance(0.06))
 	nTasks := 1
 	if kind != 0 {
 		nTasks = r.Range(2, 5)
@@ -695,6 +695,9 @@ func C09(seed uint64, run int) *spec.Spec {
 		var task spec.Task
 		task.Role = "evictor"
 		n := r.Range(3, 10)
+		if r.Chance(0.3) {
+			n = r.Range(15, 40) // a long burst of cache misses while somebody else is held up inside one computation
+		}
 		for i := 0; i < n; i++ {
 			y := clampYear(g.year())
 			inner := ops.Op{K: "lyear", A: []int{y}}
